@@ -255,6 +255,17 @@ def run(ck, F, E):
                    "create_interpreter passes the new interpreter through configure_interpreter on every path",
                    "CliArgs::create_interpreter no longer applies the command-line options to the interpreter it builds: the "
                    "interactive / piped session ignores -w and -t while `abasic FILE` (configured separately) honours them", ca.span)
+    # the lines of a file are what a user would type: SourceFileAnalyzer::analyze cuts the text at '\n' and hands the pieces on as
+    # they are (trailing blanks matter inside REM text and an unclosed DATA string)
+    az = F.one("SourceFileAnalyzer::analyze")
+    if az is not None:
+        from lib import with_closures
+        rew = sorted({c.callee.split("::")[-1] for b in with_closures(F, az) for c in b.calls()
+                      if c.callee.split("::")[-1] in ("replace", "replacen", "trim", "trim_end", "trim_start", "trim_matches", "trim_end_matches", "trim_start_matches", "to_uppercase", "to_lowercase", "to_ascii_uppercase", "to_ascii_lowercase", "retain", "strip_suffix", "strip_prefix", "split_whitespace", "truncate", "drain", "remove", "pop", "chars", "char_indices", "bytes")
+                      and ("<impl str>" in c.callee or "String" in c.callee)})
+        ck.require(not rew, "C15:PIPE:file-lines-verbatim", "R-PIPE", "analyze() hands each '\\n'-separated piece on unchanged",
+                   "SourceFileAnalyzer::analyze rewrites the file's lines before analysing them (%s): the loaded program differs from "
+                   "the typed-in one wherever that text matters (REM text, unclosed DATA strings)" % ", ".join(rew), az.span)
     # "with or without the static check": `abasic FILE` refuses to run a file the checker objects to, so the checker must not
     # object to operand kinds the interpreter accepts (NOT of a string, comparisons of strings, ..): C06's kind tables,
     # filed under this property as well
